@@ -10,6 +10,7 @@ import (
 	"os/exec"
 	"path/filepath"
 	"runtime"
+	"runtime/pprof"
 	"sort"
 	"strconv"
 	"strings"
@@ -197,6 +198,12 @@ func cmdWorker(args []string) int {
 	}
 	core.SetTier(*quick)
 	start := time.Now()
+	if pf := os.Getenv("SIMRUN_CPUPROFILE"); pf != "" {
+		if f, err := os.Create(pf); err == nil {
+			pprof.StartCPUProfile(f)
+			defer pprof.StopCPUProfile()
+		}
+	}
 	// Before every run the worker notes what it is about to execute, so that if the code under test
 	// kills the process (stack overflow, concurrent map access: fatal errors cannot be recovered) the
 	// driver can re-execute exactly that run in a fresh process and report the crash with a replay file.
